@@ -407,6 +407,14 @@ pub fn run_c05(tier: Tier) -> ! {
             }
         }
     }
+    {
+        let a = |n: u8| {
+            let mut acts = w4props::std_acts(n, &[0, 8, 16, 20], true);
+            acts.push(w4::Act::LongPause);
+            acts
+        };
+        plans.extend(w4props::param_sweep_plans(w4::Mon::C05, a(1), a(2), tier));
+    }
     let t4 = w4props::explore(plans, 0.0, &|_| {});
     t.states += t4.states;
     t.transitions += t4.transitions;
